@@ -40,6 +40,9 @@ func txsOfLetter(letter string, h uint32) (types.Transactions, []string) {
 		}
 		return txs, names
 	}
+	if letter == restartLetter {
+		return nil, nil
+	}
 	var txs types.Transactions
 	names := blockTxNames(letter)
 	for i, n := range names {
@@ -106,7 +109,13 @@ func runTermBlocks(w *tworld, sc *scenario, hist []string, from, to int, r *core
 					err = fmt.Errorf("panic: %v", p)
 				}
 			}()
-			obs, err = w.mine(txs, sc.skip && i == 0, inspect)
+			if letter == restartLetter {
+				w.restart()
+				if inWindow {
+					r.Add("term_restarts@"+heightClass(h), 1)
+				}
+			}
+			obs, err = w.mine(txs, sc.isLate(h), inspect)
 		}()
 		if err != nil {
 			r.Add("term_miner_produced_no_block", 1)
@@ -138,6 +147,15 @@ func runTermBlocks(w *tworld, sc *scenario, hist []string, from, to int, r *core
 		}
 	}
 	return blocks
+}
+
+func (sc *scenario) isLate(h uint32) bool {
+	for _, l := range sc.late {
+		if uint32(l) == h {
+			return true
+		}
+	}
+	return false
 }
 
 func firstWords(s string, n int) string {
